@@ -1103,7 +1103,10 @@ impl TryFrom<&mut Peekable<Lexer>> for ParserNode {
                                 // a macro that is never closed ends with the source
                                 let next = match lex.get_any() {
                                     Err(LexError::UnexpectedEOF) => break,
-                                    next => next?,
+                                    // text of the macro that is not a token (a
+                                    // `%parameter`) is ignored with the rest
+                                    Err(_) => continue,
+                                    Ok(next) => next,
                                 };
                                 if let TokenType::Directive(dir2) = next.token_type() {
                                     if let Ok(new_dir) = DirectiveToken::from_str(dir2) {
